@@ -323,8 +323,8 @@ impl Property for C06 {
     }
     fn cases(&self, tier: Tier) -> usize {
         match tier {
-            Tier::Quick => 8_000,
-            Tier::Thorough => 300_000,
+            Tier::Quick => 16_000,
+            Tier::Thorough => 400_000,
         }
     }
     fn strategy(&self, _tier: Tier) -> BoxedStrategy<C06Case> {
